@@ -515,6 +515,9 @@ def _gen_retype_plan(S, k, header, queries):
         events.append({'act': 'drain', 'client': 0, 'lazy': 'R0'})
     for h in sorted(set(a['h'] for a in args.values() if 'h' in a and a['h'][0] != 'S')):
         events.append({'act': 'owneredit', 'client': 0, 'h': h, 'k': 4, 'only': 'retype'})
+        if h.startswith('E') and not h.startswith('EL'):
+            # a configuration object the library handed the client a class for: its rules edited between two calls
+            events.append({'act': 'owneredit', 'client': 0, 'h': h, 'k': 1})
     args2 = copy.deepcopy(args)
     for an, av in args2.items():
         if 'v' in av and isinstance(av['v'], float) and av['v'] == int(av['v']) and abs(av['v']) < 1e9:
@@ -1423,6 +1426,10 @@ def _owner_edit_other(obj, k):
         obj[first] = obj.pop(first)
         return 'dict.first-moved-to-end'
     if isinstance(obj, pt.EnzymeConfig):
+        if k % 2 and isinstance(obj.regex, list) and obj.regex:
+            # the rules themselves: another protease in place of the first one (edited in the list the config holds)
+            obj.regex[0] = 'asp-n' if obj.regex[0] != 'asp-n' else 'lys-c'
+            return 'enzcfg.regex[0]-replaced'
         obj.missed_cleavages = (obj.missed_cleavages or 0) + 1
         return 'enzcfg.missed_cleavages+1'
     if isinstance(obj, pt.ProFormaAnnotation):
